@@ -101,7 +101,7 @@ def direct_traces(rng, quick=True):
 
 # ---- engine-level ------------------------------------------------------------------------
 
-def engine_traces(cls, listing, other_listing, diag, seed=0, chains=2, slow=(8, 10)):
+def engine_traces(cls, listing, other_listing, diag, seed=0, chains=2, slow=(8, 10), companion="mm"):
     """A real engine with two mass-matrix kernels over non-alphabetical keys; after each
     slow epoch the kernel's matrix (from store_kernel_states) is compared with that
     epoch's stored history of the kernel's own keys."""
@@ -117,7 +117,10 @@ def engine_traces(cls, listing, other_listing, diag, seed=0, chains=2, slow=(8, 
     b.set_initial_values({n: jnp.ones(shapes[n], jnp.float32) * 0.1 for n in names})
     kw = {"max_treedepth": 3} if cls is gs.NUTSKernel else {"num_integration_steps": 3}
     k1 = cls(list(listing), initial_step_size=0.5, mm_diag=diag, **kw)
-    k2 = cls(list(other_listing), initial_step_size=0.5, mm_diag=diag, **kw)
+    if companion == "mm":
+        k2 = cls(list(other_listing), initial_step_size=0.5, mm_diag=diag, **kw)
+    else:   # a co-existing kernel that does not ask for the history
+        k2 = gs.RWKernel(list(other_listing), initial_step_size=0.5)
     b.add_kernel(k1)
     b.add_kernel(k2)
     cfgs = [EpochConfig(EpochType.INITIAL_VALUES, 1, 1, None), EpochConfig(EpochType.FAST_ADAPTATION, 4, 1, None)]
@@ -133,7 +136,7 @@ def engine_traces(cls, listing, other_listing, diag, seed=0, chains=2, slow=(8, 
     kstates = res.kernel_states.unwrap().combine_all().unwrap()  # list per kernel
     out = []
     starts = np.cumsum([0] + [c.duration for c in cfgs])
-    for ki, (kern, lst) in enumerate(((k1, listing), (k2, other_listing))):
+    for ki, (kern, lst) in enumerate(((k1, listing), (k2, other_listing))[: 2 if companion == "mm" else 1]):
         lst = list(lst)
         rank = {n: i + 1 for i, n in enumerate(sorted(lst))}
         sizes = [int(np.prod(shapes[n])) if shapes[n] else 1 for n in sorted(lst)]
